@@ -323,8 +323,8 @@ int main(int argc, char **argv)
             for (int p = 0; p < int(payloads().size()); ++p) {
                 for (int f = 0; f < 4; ++f) {
                     for (int id = 0; id < 2; ++id) {
-                        if (id == 1 && !(ctx.thorough() || s == -2)) {
-                            continue;   // quick: empty id only with the default extension set
+                        if (id == 1 && !(ctx.thorough() || s == -2 || s == -1)) {
+                            continue;   // quick: empty id with the default extension set and with all managers
                         }
                         if (p >= g_nBase && !ctx.thorough() && (t > 1 || f != 1 || id != 0 || s == -3)) {
                             continue;   // quick: multi-child payloads only as get/set from a contact, with extensions installed
